@@ -874,7 +874,9 @@ fn gen_pattern(rng: &mut Rng) -> String {
                 p.push(']');
             }
             4 => p.push(*rng.pick(&['.', '*', '?', '+', '(', ')', '$', '^', '-'])),
-            5 => p.push_str(*rng.pick(&["\\%", "\\_", "\\[", "\\]", "\\\\"])),
+            5 => p.push_str(*rng.pick(&[
+                "\\%", "\\_", "\\[", "\\]", "\\\\", "\\.", "\\*", "\\?", "\\^", "\\$", "\\(", "\\\\%", "\\\\_", "\\a", "\\b", "\\c", "\\-",
+            ])),
             6 => p.push(']'),
             _ => p.push_str("[c-a]"),
         }
